@@ -16,9 +16,11 @@ class Prop:
     vo_props = ["theories/Props/C19.vo"]
     k_names = ["decisions(ratelimiter.Allow/cleanup under VerifSetClock == Ratelimit.Model.step, with passes, without passes, address alone)",
                "concurrent(k callers of Allow for one new address held at the clock call; observed admissions judged by Spec.envelope_chk)",
-               "device(real device under load, cookie exchange done, one address flooding while another sends 60 ms apart, v4 and v6; "
+               "device(real device under load, cookie exchange done, one address flooding while another sends 60 ms apart, then the flood "
+               "continues across a UAPI listen_port change and Down/Up, v4 and v6; "
                "processed/refused per message judged by Spec envelope/spaced/independence checkers)"]
-    rule = ("arrival histories from one PRNG under a virtual clock: 2-8 addresses (v4, v6, v4-mapped v6, extremes) interleaved, "
+    rule = ("arrival histories from one PRNG under a virtual clock: 2-8 addresses (v4, v6, v4-mapped v6, zoned link-local incl. the same "
+            "address on two links, extremes) interleaved, every source address turned into the limiter key by the real receive path, "
             "gaps around packetCost (50 ms), maxTokens and the 1 s collection threshold, bursts at a frozen clock, long idles, "
             "collection passes as explicit ops, start times at the int64 extremes, gaps beyond 2^62 ns (int64 wrap of the token "
             "addition, saturation of time.Sub) and clocks going backwards (model comparison only); each history is run with passes, "
@@ -26,7 +28,8 @@ class Prop:
             "least two addresses and at least one collection pass; distinct by content hash")
     assumptions = ["times are int64 ns (harness clock time.Unix(0, ns)), monotone and inside one span of 2^62 ns (146 years): "
                    "beyond it the code's int64 addition wraps and an idle address is refused (mirrored by the model, outside the theorems)",
-                   "netip.Addr zones are not modelled (addresses are family + 128 bits)",
+                   "an address is zone identity + family + 128 bits (two addresses differing only in the zone are different keys); "
+                   "the key of each source is produced by the real conn.StdNetBind.receiveIP (hook conn.VerifReceiveIP), Linux batch path, no control data",
                    "the all-schedules theorem is for Allow with the insertion re-checked under the write lock and without a collection "
                    "pass between a caller's lookup and its charge; for the code as found the envelope is refuted (F2)",
                    "device/receive.go consults Allow only under load after the MAC2 gate (covered by the C03/C13 co-simulation, not here)"]
